@@ -174,7 +174,7 @@ def run(prog, rep):
                 raw_callers.append((f, c))
     allowed = {"tools.odmlparser.ODMLWriter.write_file", "tools.converters.format_converter.FormatConverter._convert_file"}
     for f, c in raw_callers:
-        rep.check(f.short in allowed, "OWN-4", "%s calls %s" % (f.short, unparse(c.func)[:50]), "allowed caller",
+        rep.check(prog.table_short(f) in allowed, "OWN-4", "%s calls %s" % (f.short, unparse(c.func)[:50]), "allowed caller",
                   "raw writer called from %s, bypassing the validation guard" % f.short, where(f, c))
     rep.floor("OWN-4", len(raw_callers), 2, "raw writer call sites")
 
